@@ -5,6 +5,7 @@ import EaselModel.Containers.RedBlack
 import EaselModel.Containers.RedBlackPtr
 import EaselModel.Containers.KeyhashApi
 import EaselModel.Containers.Stack
+import EaselModel.Containers.StackThreads
 import EaselModel.Containers.Quicksort
 /-! Line-protocol driver for the C19 models (keyhash, heap, red-black tree, stacks, quicksort). -/
 open EaselModel EaselModel.Proto EaselModel.Containers EaselModel.Random
@@ -324,6 +325,29 @@ def step (s : S) (line : String) : S × String :=
   | "tostring" :: _ =>
     let bytes := s.stack.data.toList.map (fun x => UInt8.ofNat (x % 256).toNat)
     ({ s with stack := Stack.create, cond := false }, "ok " ++ hexOrDash (Stack.convert2String { data := bytes.toArray, nalloc := s.stack.nalloc }))
+  | "st_threads" :: _ =>
+    -- the transition system of `StackThreads` run under one particular schedule (poppers first or pushers first, then pusher /
+    -- popper alternately, `ReleaseCond`, poppers); by `stack_threads_conservation` every schedule gives the same report
+    let vs := parseInts ((arg? ws "v").getD "-")
+    let p := (argNat? ws "pushers").getD 1
+    let q := (argNat? ws "poppers").getD 1
+    let popfirst := (argNat? ws "popfirst").getD 0 == 1
+    if p < 1 || p > 16 || q < 1 || q > 16 then (s, "bad-op") else
+    let ty := (arg? ws "t").getD "i"
+    let conv (x : Int) : Int := if ty == "c" then x % 256 else if ty == "i" then ((x + 2147483648) % 4294967296) - 2147483648 else x
+    let idx := List.range vs.length
+    let pushers : List (List (StackThreads.TOp Int)) :=
+      (List.range p).map fun i => (idx.filter (fun j => j % p == i)).map fun j => StackThreads.TOp.push (conv (vs.getD j 0))
+    let poppers : List (List (StackThreads.TOp Int)) := List.replicate q [StackThreads.TOp.drain]
+    let st0 := StackThreads.initial (Stack.create : Stack.Stack Int) (pushers ++ poppers ++ [[StackThreads.TOp.release]])
+    let pushIds := List.range p
+    let popIds := (List.range q).map (· + p)
+    let alt := (List.range (max p q)).flatMap fun i => (if i < p then [i] else []) ++ (if i < q then [p + i] else [])
+    let order := (if popfirst then popIds else []) ++ alt ++ pushIds ++ [p + q] ++ popIds
+    let fin := StackThreads.runOrder (4 * vs.length + 16) st0 order
+    let eods := (fin.threads.map fun th => (th.outs.filter (· == StackThreads.TOut.eod)).length).sum
+    let sorted := fin.popped.mergeSort (fun a b => decide (a ≤ b))
+    (s, s!"ok popped={showInts sorted} left={fin.stack.data.size} eods={eods}")
   -- ---------------- quicksort
   | "qsort" :: _ =>
     let data := (parseInts ((arg? ws "data").getD "-")).toArray
